@@ -6,6 +6,7 @@ import (
 	"math/rand"
 	"testing"
 	"testing/synctest"
+	"time"
 
 	"github.com/biogo/hts/simhook"
 	sync "github.com/biogo/hts/simhook/simsync"
@@ -135,5 +136,53 @@ func TestSelect(t *testing.T) {
 	}
 	if counts[0] == 0 || counts[1] == 0 {
 		t.Fatalf("select order not varied: %v", counts)
+	}
+}
+
+// Timers: simulated time stands still while anything can run and jumps to
+// the next timer when everything is blocked; a run with no timer pending
+// that is stuck is still a deadlock.
+func TestTimers(t *testing.T) {
+	for seed := int64(0); seed < 50; seed++ {
+		var order []string
+		var elapsed time.Duration
+		res := runOnce(t, seed, func() {
+			start := time.Now()
+			done := make(chan struct{})
+			simhook.Go("timeout", func() {
+				cLong := simhook.RecvCase(time.After(5 * time.Second))
+				cDone := simhook.RecvCase(done)
+				switch simhook.Select("select", false, cLong, cDone) {
+				case 0:
+					order = append(order, "timeout")
+				case 1:
+					order = append(order, "done")
+				}
+			})
+			simhook.Go("sleeper", func() {
+				simhook.Sleep(int64(time.Second), "sleep")
+				order = append(order, "slept")
+				simhook.Close(done, "close done")
+			})
+			tm := time.NewTimer(10 * time.Second)
+			simhook.Recv(tm.C, "timer")
+			order = append(order, "timer")
+			elapsed = time.Since(start)
+		})
+		if res.Outcome != simhook.OK {
+			t.Fatalf("seed %d: outcome %s %s", seed, res.Outcome, res.Detail)
+		}
+		if len(order) != 3 || order[0] != "slept" || order[1] != "done" || order[2] != "timer" {
+			t.Fatalf("seed %d: order %v", seed, order)
+		}
+		if elapsed != 10*time.Second {
+			t.Fatalf("seed %d: simulated time %v", seed, elapsed)
+		}
+	}
+	res := runOnce(t, 1, func() {
+		simhook.Recv(make(chan int), "never")
+	})
+	if res.Outcome != simhook.Deadlock {
+		t.Fatalf("a blocked client without timers: outcome %s", res.Outcome)
 	}
 }
